@@ -971,6 +971,9 @@ func (g *generatorObject) tryCallDelegated(fn func() (Value, bool)) (ret Value, 
 }
 
 func (g *generatorObject) callDelegated(method func(FunctionCall) Value, v Value) (Value, bool) {
+	if method == nil {
+		panic(g.val.runtime.NewTypeError("iterator.next is missing or not a function"))
+	}
 	res := g.val.runtime.toObject(method(FunctionCall{This: g.delegated.iterator, Arguments: []Value{v}}))
 	if iteratorComplete(res) {
 		g.delegated = nil
